@@ -1186,7 +1186,7 @@ class PotLimitOmahaHoldem(
 
 
 class FixedLimitOmahaHoldemHighLowSplitEightOrBetter(
-        PotLimitPokerMixin,
+        FixedLimitPokerMixin,
         OmahaHoldemMixin,
         Holdem,
 ):
